@@ -157,6 +157,18 @@ new.append(entry("C18", level="other",
     not_decided=["layouts outside the family (other offsets and combinations)"],
     explanation="For each layout of the family the lemma function Unmarshal(Marshal(v)) is verified with the reflective codec executed on its real body: exact bytes at each declared offset and zero elsewhere, decode(encode(v)) == v, function-code and fixed-value tags emitted and enforced, decoded slices share no memory with the buffer or the encoded value, and no run-time panic (all index/slice/nil obligations), for every in-domain value of every field."))
 
+
+SLICE_TYPES = ["GetDeviceResponse", "SetAddressRequest"]
+new.append(entry("C17",
+    functions=OPS + ["uhppote.(Device).Clone", "types.(*Card).Clone", "uhppote.NewUHPPOTE", "types.(*MacAddress).UnmarshalUT0311L0x",
+                     "encoding/UTO311-L0x.lemmaDecodeAddrs", "encoding/UTO311-L0x.lemmaLayoutAddrs"] + ["messages.lemmaDecode" + t for t in SLICE_TYPES],
+    scope=[OPRE + r"frame[@:]", r"^uhppote\.\(Device\)\.Clone#", r"^types\.\(\*Card\)\.Clone#", r"^uhppote\.NewUHPPOTE#", r"^types\.\(\*MacAddress\)\.UnmarshalUT0311L0x#ensures",
+           r"#ensures:noalias$", OPRE + r"ensures:result$"],
+    pinned_file="pins_uhppote.json", pinned_labels=["contract"],
+    assumptions=COMMON_ASSUME + ["heap model with allocation freshness: a slice/map allocated during a call has a reference above every reference that existed at entry; references stored in the initial heap point to memory that existed at entry"],
+    not_decided=["DeviceList (range over a map: no iterator model in the engine)", "the routing function reads only the client's own map: follows from NewUHPPOTE's `own`/`client` clauses and the frame obligations, not stated as a separate lemma"],
+    explanation="Frame obligations of every API operation (no write to memory that existed at entry: card.Doors, profile maps, task maps, readers, IP slices), Device.Clone / Card.Clone return equal values whose slices/maps are fresh, NewUHPPOTE stores a clone of every device in a fresh map of the client, and decoded slices (IPv4, MAC) share no memory with the message buffer (noalias clauses of the decode lemmas; result maps of GetCard*/GetTimeProfile are fresh)."))
+
 ids = {e["id"] for e in new}
 out = [p for p in props if p["id"] not in ids] + new
 out.sort(key=lambda p: p["id"])
